@@ -13,7 +13,7 @@ Rec == Log[k]
 \* the driver reports each result as the integer numerator over the specification's denominator (and whether the float was
 \* within tolerance of that rational)
 Same(obs, exp) == obs.den = exp[2] /\ obs.num = exp[1] /\ obs.close
-Conforms == Admissible =>
+Conforms == (Admissible /\ Rec.scale = "unit") =>
    /\ Rec.status = "ok"
    /\ Same(Rec.mean, MeanRule)
    /\ Same(Rec.var, VarRule)
@@ -24,6 +24,11 @@ Conforms == Admissible =>
 \* after the memory-less phase, a prior variance collapsing to exactly zero (every latent value equal to the pre-step mean): the step is
 \* refused as a whole with the convergence error - no parameter keeps a value unrelated to the statistics, none is modified
 Collapsed == ~burn /\ N >= 2 /\ VarRule[1] = 0 /\ (\A f \in Feats : NoiseVarOf(f)[2] > 0) /\ NoiseVarScalar[1] > 0
-RefusedWhole == Collapsed => (Rec.status = "LeaspyConvergenceError" /\ Rec.untouched)
-Covered == IOEnv.EXPECT_COUNT = "0" \/ Cardinality({<<Log[i].xs, Log[i].mold, Log[i].burn, Log[i].cells>> : i \in 1..Len(Log)}) = atoi(IOEnv.EXPECT_COUNT)
+\* a dispersion that is positive but below the documented lower bound (1e-5) is a collapse as well - never floored: with latent
+\* values scaled by 1/1000 around the pre-step mean the variance is VarRule / 10^6, below the bound iff VarRule < 10
+BelowBound == Rec.scale = "tiny" /\ ~burn /\ N >= 2 /\ VarRule[1] > 0 /\ VarRule[1] < 10 * VarRule[2]
+              /\ (\A f \in Feats : NoiseVarOf(f)[2] > 0) /\ NoiseVarScalar[1] > 0
+RefusedWhole == /\ (Collapsed /\ Rec.scale = "unit") => (Rec.status = "LeaspyConvergenceError" /\ Rec.untouched)
+                /\ BelowBound => (Rec.status = "LeaspyConvergenceError" /\ Rec.untouched)
+Covered == IOEnv.EXPECT_COUNT = "0" \/ Cardinality({<<Log[i].xs, Log[i].mold, Log[i].burn, Log[i].cells>> : i \in {j \in 1..Len(Log) : Log[j].scale = "unit"}}) = atoi(IOEnv.EXPECT_COUNT)
 =============================================================================
